@@ -31,14 +31,16 @@ var occMachine = map[string]map[string]string{
 }
 
 type device struct {
-	proc      *simproc.Proc // the process the OCC server lives in
-	listening bool          // control port open
-	state     string        // "" until the state machine is up
-	stuck     bool          // the OCC server accepts calls but never answers Transition
-	events    []pb.DeviceEventType
-	streamEnd bool // the device closed its event stream (after END_OF_STREAM)
-	calls     []string
-	doneAt    time.Duration
+	proc       *simproc.Proc // the process the OCC server lives in
+	listening  bool          // control port open
+	state      string        // "" until the state machine is up
+	stuck      bool          // the OCC server accepts calls but never answers Transition
+	noPid      bool          // GetState leaves the pid field at its default (occ.proto: int32 pid = 2; proto3 default 0)
+	doneOnKill bool          // the device was sent to DONE after a KILL request had been handed to the executor
+	events     []pb.DeviceEventType
+	streamEnd  bool // the device closed its event stream (after END_OF_STREAM)
+	calls      []string
+	doneAt     time.Duration
 }
 
 func (d *device) up() bool { return d.proc != nil && d.proc.Alive() && d.listening }
@@ -59,6 +61,9 @@ func (d *device) rpc(name string) error {
 func (d *device) GetState(ctx context.Context, in *pb.GetStateRequest, opts ...grpc.CallOption) (*pb.GetStateReply, error) {
 	if err := d.rpc("GetState"); err != nil {
 		return nil, err
+	}
+	if d.noPid {
+		return &pb.GetStateReply{State: d.state}, nil
 	}
 	return &pb.GetStateReply{State: d.state, Pid: int32(d.proc.Pid)}, nil
 }
@@ -87,6 +92,7 @@ func (d *device) Transition(ctx context.Context, in *pb.TransitionRequest, opts 
 	d.state = target
 	if target == "DONE" {
 		d.doneAt = vrt.VNow()
+		d.doneOnKill = R != nil && R.killFedAt >= 0
 		d.events = append(d.events, pb.DeviceEventType_END_OF_STREAM)
 		d.streamEnd = true
 	}
